@@ -69,10 +69,28 @@ def _known_5xx(method, route, body, query, resp):
     return None
 
 
+def _listed_findings():
+    """ids that known_findings.json lists as open findings of C15: a witness
+    pattern suppresses nothing unless its finding is listed there (fixed
+    entries suppress nothing)"""
+    import json
+    path = os.path.join(runner.VERIF, 'known_findings.json')
+    if not os.path.exists(path):
+        return set()
+    return set(e['id'] for e in json.load(open(path)).get('findings', [])
+               if 'C15' in e.get('properties', []))
+
+
 def fuzz_c15():
     sys.path.insert(0, os.path.join(runner.VERIF, 'replay'))
     import c15
-    return c15.fuzz(known=(_known_5xx,), budget=1500 if os.environ.get('VERIF_TIER') == 'thorough' else 600)
+    listed = _listed_findings()
+
+    def known(method, route, body, query, resp):
+        fid = _known_5xx(method, route, body, query, resp)
+        return fid if fid in listed else None
+    return c15.fuzz(known=(known,) if listed else (),
+                    budget=1500 if os.environ.get('VERIF_TIER') == 'thorough' else 600)
 
 
 def script_ensure_consumer(ex):
